@@ -19,6 +19,7 @@ from vlib.poly import Poly as P, POS, NEG, ZERO, NONNEG, NONZERO
 A = viewops.A
 
 EXTRA = r"""
+inline double& idref(double& x) { return x; }
 template<class R> inline long daddr(R&& r, double const* base, long j1, long j2, long j3) {
 	if constexpr(std::is_arithmetic_v<std::decay_t<R>>) { return eaddr(r, base); }
 	else {
@@ -39,8 +40,12 @@ def prod(xs):
 
 
 def add_iter(cr, D, zb, kind):
-    beg = {"mutable": "v.begin()", "const": "std::as_const(v).begin()", "move": "v.mbegin()"}[kind]
-    end = {"mutable": "v.end()", "const": "std::as_const(v).end()", "move": "v.mend()"}[kind]
+    # "moved" / "transformed": iterators of element_moved() and of a reference-yielding element_transformed() view, whose element pointers are the
+    # pointer adaptors move_ptr / transform_ptr of utility.hpp
+    beg = {"mutable": "v.begin()", "const": "std::as_const(v).begin()", "move": "v.mbegin()",
+           "moved": "v.element_moved().begin()", "transformed": "v.element_transformed(&idref).begin()"}[kind]
+    end = {"mutable": "v.end()", "const": "std::as_const(v).end()", "move": "v.mend()",
+           "moved": "v.element_moved().end()", "transformed": "v.element_transformed(&idref).end()"}[kind]
     J = "j1, j2, j3"
     body = """
 	auto const b0 = %(beg)s; auto const e0 = %(end)s; auto it = b0 + m;
@@ -347,7 +352,7 @@ def run(tier):
                         "between closed forms of the optimised library code on a symbolic view and the specification; non-trivial = expected form not constant")
     wd = common.workdir("c02")
     maxd = 4 if tier == "thorough" else 3
-    kinds = ["mutable", "const", "move"] if tier == "thorough" else ["mutable", "const"]
+    kinds = ["mutable", "const", "move", "moved", "transformed"] if tier == "thorough" else ["mutable", "const", "moved", "transformed"]
     for zb, tag in ((True, "zb"), (False, "fb")):
         cr = viewops.CustomRun(rep, "C02", zb, wd, tag)
         for D in range(1, maxd + 1):
